@@ -30,6 +30,7 @@ import (
 	"github.com/provenance-io/provenance/app"
 	markertypes "github.com/provenance-io/provenance/x/marker/types"
 	"github.com/provenance-io/provenance/x/quarantine"
+	quarantinekeeper "github.com/provenance-io/provenance/x/quarantine/keeper"
 )
 
 func init() {
@@ -246,8 +247,12 @@ func (e *quarEnv) dump() string {
 	}
 	it.Close()
 	sort.Strings(idx)
+	inv := "ok"
+	if _, broken := quarantinekeeper.FundsHolderBalanceInvariant(k)(ctx); broken {
+		inv = "broken"
+	}
 	return "bal:" + JoinOr(bals, ";") + " | opt:" + JoinOr(opt, ",") + " | auto:" + JoinOr(auto, ";") +
-		" | rec:" + JoinOr(recs, ";") + " | idx:" + JoinOr(idx, ";")
+		" | rec:" + JoinOr(recs, ";") + " | idx:" + JoinOr(idx, ";") + " | inv:" + inv
 }
 
 // CoinsStrDenomOrder renders coins sorted by denom (not by rendered string).
@@ -511,10 +516,48 @@ func quarSimplify(ws []string) string {
 // ---------------------------------------------------------------------------------------
 // generator
 
+type quarRecView struct {
+	to    string
+	unacc []string
+	all   []string
+}
+
 type quarGen struct {
-	r   *RNG
-	out *Out
-	bal map[string]map[string]int64 // rough local view, only to steer amounts
+	r    *RNG
+	out  *Out
+	recs []quarRecView // records in the implementation's last dump (steers accept/decline/top-ups)
+}
+
+// observe parses the record section of a dump.
+func (g *quarGen) observe(res string) {
+	i := strings.Index(res, "| rec:")
+	if i < 0 {
+		return
+	}
+	recs := res[i+6:]
+	if j := strings.Index(recs, " | idx:"); j >= 0 {
+		recs = recs[:j]
+	}
+	g.recs = g.recs[:0]
+	if recs == "-" {
+		return
+	}
+	for _, rr := range strings.Split(recs, ";") {
+		p := strings.Split(rr, "/")
+		if len(p) != 5 {
+			continue
+		}
+		key := strings.SplitN(p[0], "<", 2)
+		v := quarRecView{to: key[0]}
+		if u := strings.TrimPrefix(p[1], "u="); u != "-" {
+			v.unacc = strings.Split(u, ",")
+		}
+		v.all = append(v.all, v.unacc...)
+		if a := strings.TrimPrefix(p[2], "a="); a != "-" {
+			v.all = append(v.all, strings.Split(a, ",")...)
+		}
+		g.recs = append(g.recs, v)
+	}
 }
 
 func (g *quarGen) acct() string { return Pick(g.r, quarNames) }
@@ -559,7 +602,7 @@ func (g *quarGen) coins() string {
 		}
 		if g.r.Chance(p) {
 			amt := 1 + g.r.Intn(9)
-			if g.r.Chance(8) {
+			if g.r.Chance(4) {
 				amt = 40 + g.r.Intn(200) // often more than the sender has
 			}
 			parts = append(parts, fmt.Sprintf("%d%s", amt, d))
@@ -576,7 +619,7 @@ func (g *quarGen) initLine() string {
 	for _, n := range quarNames {
 		var parts []string
 		for _, d := range quarDenoms {
-			if g.r.Chance(80) {
+			if g.r.Chance(92) {
 				parts = append(parts, fmt.Sprintf("%d%s", 20+g.r.Intn(200), d))
 			}
 		}
@@ -665,6 +708,16 @@ func (g *quarGen) op(hot []string) string {
 		if g.r.Chance(3) {
 			fs = nil
 		}
+		if len(g.recs) > 0 && g.r.Chance(30) {
+			// top up an existing record (its senders in another order)
+			rv := Pick(g.r, g.recs)
+			to = rv.to
+			fs = append([]string{}, rv.all...)
+			for i := len(fs) - 1; i > 0; i-- {
+				j := g.r.Intn(i + 1)
+				fs[i], fs[j] = fs[j], fs[i]
+			}
+		}
 		payer := g.acct()
 		if len(fs) > 0 && g.r.Chance(80) {
 			payer = fs[0]
@@ -676,6 +729,18 @@ func (g *quarGen) op(hot []string) string {
 		if g.r.Chance(3) {
 			fs = nil
 		}
+		if len(g.recs) > 0 && g.r.Chance(70) {
+			rv := Pick(g.r, g.recs)
+			to = rv.to
+			switch g.r.Intn(4) {
+			case 0, 1: // every unaccepted sender: completes the record
+				fs = append([]string{}, rv.unacc...)
+			case 2: // only one of them
+				fs = []string{Pick(g.r, rv.unacc)}
+			default: // all of them and a stranger
+				fs = append(append([]string{}, rv.unacc...), g.acct())
+			}
+		}
 		if g.r.Chance(5) && len(fs) > 0 {
 			fs = append(fs, fs[0]) // a sender named twice
 		}
@@ -685,6 +750,11 @@ func (g *quarGen) op(hot []string) string {
 		fs := g.subset(n, n)
 		if g.r.Chance(3) {
 			fs = nil
+		}
+		if len(g.recs) > 0 && g.r.Chance(60) {
+			rv := Pick(g.r, g.recs)
+			to = rv.to
+			fs = []string{Pick(g.r, rv.all)} // possibly an already accepted sender: moves back to unaccepted
 		}
 		return fmt.Sprintf("decline %s %s %s", to, JoinOr(fs, "|"), g.perm())
 	}
@@ -706,8 +776,14 @@ func quarCountRes(out *Out, op, res string) {
 	kind := strings.Fields(op)[0]
 	r := strings.SplitN(res, " ;; ", 2)[0]
 	cls := strings.Fields(r)[0]
+	if strings.HasPrefix(op, "send H ") {
+		kind = "send_by_holder"
+	}
 	out.Count("op:" + kind)
 	out.Count("res:" + kind + ":" + cls)
+	if strings.HasSuffix(res, "inv:broken") {
+		out.Count("state:chain_invariant_broken")
+	}
 	if kind == "accept" && cls == "ok" {
 		if r == "ok -" {
 			out.Count("accept:released_nothing")
@@ -738,6 +814,12 @@ func quarCountRes(out *Out, op, res string) {
 		if multi > 0 {
 			out.Count("state:has_multi_sender_record")
 		}
+		if strings.Contains(recs, "/a=A") || strings.Contains(recs, "/a=B") || strings.Contains(recs, "/a=C") || strings.Contains(recs, "/a=D") || strings.Contains(recs, "/a=E") {
+			out.Count("state:has_partially_accepted_record")
+		}
+		if strings.Contains(recs, "/d=1") {
+			out.Count("state:has_declined_record")
+		}
 	}
 }
 
@@ -748,6 +830,7 @@ func quarDrive(t *testing.T, rng *RNG, n int, out *Out) {
 	for h := 0; h < n; h++ {
 		out.Comment(fmt.Sprintf("history %d", h))
 		line := g.initLine()
+		g.recs = nil
 		out.Emit(line, e.exec(line))
 		steps := 12 + rng.Intn(29)
 		if *flagTier == "thorough" {
@@ -761,6 +844,10 @@ func quarDrive(t *testing.T, rng *RNG, n int, out *Out) {
 			out.Emit(line, res)
 			quarCountRes(out, line, res)
 		}
+		drainAt := -1
+		if rng.Chance(6) {
+			drainAt = steps/2 + rng.Intn(steps/2)
+		}
 		for i := 0; i < steps; i++ {
 			if rng.Chance(2) {
 				line = quarSimplifyLine(rng)
@@ -769,9 +856,15 @@ func quarDrive(t *testing.T, rng *RNG, n int, out *Out) {
 				continue
 			}
 			line = g.op(hot)
+			if drainAt == i {
+				// the holder's key does not exist on a chain; this op only exercises the chain's own
+				// FundsHolderBalanceInvariant on a state where the holder no longer covers the records
+				line = fmt.Sprintf("send %s %s %s", quarHolder, g.acct(), g.coins())
+			}
 			res := e.exec(line)
 			out.Emit(line, res)
 			quarCountRes(out, line, res)
+			g.observe(res)
 		}
 	}
 }
